@@ -19,6 +19,64 @@ MAX_EVENTS = 20000  # a run drawing more decisions than this counts as "does not
 LAYER_EXC, IND_EXC = "EVQECircuitLayerException", "EVQEIndividualException"
 
 
+# ------------------------------------------------------------------ objects -> plain data (by isinstance: user subclasses of the gates count as their base kind)
+def plain_gate(g):
+    from queasars.minimum_eigensolvers.evqe.quantum_circuit.quantum_gate import ControlGate, ControlledRotationGate, IdentityGate, RotationGate
+
+    if isinstance(g, ControlledRotationGate):
+        return ["CR", g.qubit_index, g.control_qubit_index]
+    if isinstance(g, ControlGate):
+        return ["C", g.qubit_index, g.controlled_qubit_index]
+    if isinstance(g, RotationGate):
+        return ["R", g.qubit_index]
+    if isinstance(g, IdentityGate):
+        return ["I", g.qubit_index]
+    raise ValueError(type(g).__name__)
+
+
+def plain_layer(l):
+    return {"n": l.n_qubits, "gates": [plain_gate(g) for g in l.gates]}
+
+
+def plain_individual(i):
+    return {"n": i.n_qubits, "layers": [plain_layer(l) for l in i.layers], "values": [float(v) for v in i.parameter_values]}
+
+
+_SUBCLASSES = {}
+
+
+def gate_subclasses():
+    """user subclasses of the four gate classes that override apply_gate only (legal: validity uses isinstance)"""
+    if not _SUBCLASSES:
+        from dataclasses import dataclass
+
+        from queasars.minimum_eigensolvers.evqe.quantum_circuit.quantum_gate import ControlGate, ControlledRotationGate, IdentityGate, RotationGate
+
+        for kind, base in (("I", IdentityGate), ("R", RotationGate), ("C", ControlGate), ("CR", ControlledRotationGate)):
+            def apply_gate(self, circuit, parameter_name_prefix, _base=base):
+                _base.apply_gate(self, circuit, parameter_name_prefix)
+
+            _SUBCLASSES[kind] = dataclass(frozen=True)(type("User" + base.__name__, (base,), {"apply_gate": apply_gate}))
+    return _SUBCLASSES
+
+
+def impl_layer_sub(l):
+    """plain layer -> implementation layer; a gate kind with a trailing '*' becomes an instance of the user subclass"""
+    from queasars.minimum_eigensolvers.evqe.quantum_circuit.circuit_layer import EVQECircuitLayer
+
+    gates = []
+    for g in l["gates"]:
+        if g[0].endswith("*"):
+            gates.append(gate_subclasses()[g[0][:-1]](*g[1:]))
+        else:
+            gates.append(evqe.impl_gate(g))
+    return EVQECircuitLayer(n_qubits=l["n"], gates=tuple(gates))
+
+
+def strip_stars(l):
+    return {"n": l["n"], "gates": [[g[0].rstrip("*")] + list(g[1:]) for g in l["gates"]]}
+
+
 # ------------------------------------------------------------------ oracle on plain data
 def valid_layer(l) -> bool:
     """The documented validity of a circuit layer, written independently of the implementation."""
@@ -59,7 +117,7 @@ def n_param_gates(l):
 
 def check_layer_object(ctx, case, obj, where):
     """validity + parameter count of an implementation layer object"""
-    pl = evqe.plain_layer(obj)
+    pl = plain_layer(obj)
     if not valid_layer(pl) or not obj.is_valid():
         ctx.violation("oracle", f"{where}-invalid-layer", f"{where}: returned layer is not valid: {pl}", case)
     if obj.n_parameters != 3 * n_param_gates(pl):
@@ -68,7 +126,7 @@ def check_layer_object(ctx, case, obj, where):
 
 
 def check_individual_object(ctx, case, obj, where, n, n_layers=None):
-    pi = evqe.plain_individual(obj)
+    pi = plain_individual(obj)
     for l in obj.layers:
         check_layer_object(ctx, case, l, where)
     want = sum(3 * n_param_gates(l) for l in pi["layers"])
@@ -135,10 +193,10 @@ def plain_result(res):
         return ["exc", res[1]]
     o = res[1]
     if hasattr(o, "individuals"):
-        return ["pop", [[evqe.plain_individual(i)["layers"], [float(v).hex() for v in i.parameter_values]] for i in o.individuals]]
+        return ["pop", [[plain_individual(i)["layers"], [float(v).hex() for v in i.parameter_values]] for i in o.individuals]]
     if hasattr(o, "layers"):
-        return ["ind", evqe.plain_individual(o)["layers"], [float(v).hex() for v in o.parameter_values]]
-    return ["layer", evqe.plain_layer(o)]
+        return ["ind", plain_individual(o)["layers"], [float(v).hex() for v in o.parameter_values]]
+    return ["layer", plain_layer(o)]
 
 
 def rewire(layer):
@@ -198,7 +256,11 @@ def do_case(ctx, case, script=None):
     if case["kind"] == "group":
         return do_group_case(ctx, case)
     g = do_single_case(ctx, case, script)
-    if script is None and case["kind"] in ("layer", "individual", "append", "population") and case.get("seed") is not None:
+    if case.get("model") is False:
+        ctx.tally("oracle-only(no model comparison)")
+        g = None
+    wide = (case["ind"]["n"] if case["kind"] == "append" else case.get("n", 0)) > 64
+    if script is None and case["kind"] in ("layer", "individual", "append", "population") and case.get("seed") is not None and not wide:
         ctx.tally("call-history-guard")
         history_guard(ctx, case)
     return g
@@ -275,9 +337,12 @@ def do_group_case(ctx, case):
     ctx.tally(f"group:{fam}:{case['via']}:n={case['n']}")
     out = []
     before = len(ctx.violations)
-    plain_ind = lambda prev: {"n": case["n"], "layers": [prev], "values": [0.25] * (3 * n_param_gates(prev))}
+    plain_ind = lambda prev: {"n": case["n"], "layers": [strip_stars(prev)], "values": [0.25] * (3 * n_param_gates(strip_stars(prev)))}
     try:
-        if case.get("xproc"):
+        if case.get("family") == "subclass":
+            layers = [impl_layer_sub(p) for p in case["prevs"]]
+            objs = layers if case["via"] == "layer" else [EVQEIndividual(n_qubits=case["n"], layers=(l,), parameter_values=tuple(plain_ind(p)["values"])) for l, p in zip(layers, case["prevs"])]
+        elif case.get("xproc"):
             if xproc_key(case) not in XPROC_CACHE:
                 xproc_load([case])
             objs = list(XPROC_CACHE[xproc_key(case)])
@@ -298,13 +363,17 @@ def do_group_case(ctx, case):
     for seed in case["seeds"]:
         for prev, obj in zip(case["prevs"], objs):
             if case["via"] == "layer":
-                sub = {"kind": "layer", "n": case["n"], "prev": prev, "seed": seed}
+                sub = {"kind": "layer", "n": case["n"], "prev": strip_stars(prev), "seed": seed}
             else:
                 sub = {"kind": "append", "ind": plain_ind(prev), "n_layers": case["n_layers"], "randomize": False, "seed": seed}
             g = do_single_case(ctx, sub, None, arg=obj)
+            if case.get("model") is False:
+                g = None
             if g is not None:
                 out.append(g)
     for v in ctx.violations[before:]:  # the replay is the whole sequence, not the single call
+        if case.get("family") == "subclass" and case.get("pattern") == "CR+C" and v["kind"] == "oracle" and v["key"].endswith("-repeat"):
+            v["key"] = "random_layer-repeat-subclassed-pair"  # HEAD's own behaviour (candidate finding), kept apart from the other keys
         if v["case"] is not case:
             v["what"] = (f"in a sequence of calls in one process ({fam}, via {case['via']}, {len(case['seeds'])} seeds x {len(case['prevs'])} previous layers, every previous-layer object reused for all seeds): "
                          + v["what"] + f" [call: {json.dumps(v['case'], sort_keys=True)[:400]}]")
@@ -373,10 +442,10 @@ def do_single_case(ctx, case, script=None, arg=None):
             if (obj.species_representatives, obj.species_members, obj.species_membership) != (None, None, None):
                 ctx.violation("oracle", "random_population-species", "species information is not None", case)
     # Gallina literal, expected = what the implementation returned
-    g_ind = lambda o: evqe.g_individual(evqe.plain_individual(o), toks)
+    g_ind = lambda o: evqe.g_individual(plain_individual(o), toks)
     if k == "layer":
         prev = g_opt(None if case["prev"] is None else evqe.g_layer(case["prev"]))
-        return f"CLayer {g_z(n)} {prev} {g_seed(case['seed'])} {stream} {g_result(res, lambda o: evqe.g_layer(evqe.plain_layer(o)))}"
+        return f"CLayer {g_z(n)} {prev} {g_seed(case['seed'])} {stream} {g_result(res, lambda o: evqe.g_layer(plain_layer(o)))}"
     if k == "individual":
         return f"CIndividual {g_z(n)} {g_z(case['n_layers'])} {g_bool(case['randomize'])} {g_seed(case['seed'])} {stream} {g_result(res, g_ind)}"
     if k == "append":
@@ -394,7 +463,7 @@ def do_constructor_case(ctx, case, res, toks):
     if k == "make_layer":
         want = valid_layer({"n": case["n"], "gates": case["gates"]})
         ctx.tally(f"make_layer:{'valid' if want else 'invalid'}")
-        g = f"CMakeLayer {g_z(case['n'])} {g_list(evqe.g_gate(x) for x in case['gates'])} {g_result(res, lambda o: evqe.g_layer(evqe.plain_layer(o)))}"
+        g = f"CMakeLayer {g_z(case['n'])} {g_list(evqe.g_gate(x) for x in case['gates'])} {g_result(res, lambda o: evqe.g_layer(plain_layer(o)))}"
     else:
         ls = case["layers"]
         want = len(ls) >= 1 and all(l["n"] == case["n"] for l in ls) and len(case["values"]) == sum(3 * n_param_gates(l) for l in ls)
@@ -402,7 +471,7 @@ def do_constructor_case(ctx, case, res, toks):
         for v in case["values"]:
             toks.tok(v)
         g = (f"CMakeIndividual {g_z(case['n'])} {g_list(evqe.g_layer(l) for l in ls)} {evqe.g_values(case['values'], toks)} "
-             f"{g_result(res, lambda o: evqe.g_individual(evqe.plain_individual(o), toks))}")
+             f"{g_result(res, lambda o: evqe.g_individual(plain_individual(o), toks))}")
     if want and res[0] != "ok":
         ctx.violation("oracle", f"{k}-rejects-valid", f"{k}: data that is valid by the documented rules is rejected with {res[1]}", case)
     if not want and res[0] == "ok":
@@ -511,6 +580,38 @@ def reuse_cases(rng, n, n_seeds, xproc=None):
     return out
 
 
+def subclass_cases(rng, n, n_seeds, both=False):
+    """previous layers holding instances of user subclasses of the gate classes.  Patterns: only the controlled
+    rotations, only the control gates, only rotations / identities; `both`: controlled rotation AND its control gate
+    (on /repo HEAD the acceptance test then finds neither by == and repeats the rotation - see known_findings)."""
+    prevs = [l for l in all_valid_layers(n) if any(g[0] == "CR" for g in l["gates"])]
+    if n >= 4:
+        prevs = rng.sample(prevs, 8)
+    patterns = [("CR", "C")] if both else [("CR",), ("C",), ("R", "I"), ("CR", "R", "I"), ("C", "R", "I")]
+    out = []
+    for pat in patterns:
+        starred = [{"n": n, "gates": [[g[0] + "*"] + list(g[1:]) if g[0] in pat else list(g) for g in l["gates"]]} for l in prevs]
+        for via in ("layer", "append"):
+            c = {"kind": "group", "family": "subclass", "pattern": "+".join(pat), "via": via, "n": n, "prevs": starred, "seeds": [rng.randrange(2**31) for _ in range(n_seeds)]}
+            if via == "append":
+                c["n_layers"] = rng.choice([1, 2])
+            out.append(c)
+    return out
+
+
+def wide_cases(rng, n, n_seeds):
+    """wide registers: pure structure (validity, parameter count, no-repeat); model comparison up to 130 qubits"""
+    out = []
+    model = n <= 130
+    for _ in range(n_seeds):
+        prev = evqe.random_valid_layer(rng, n)
+        out.append({"kind": "layer", "n": n, "prev": prev, "seed": rng.randrange(2**31), "model": model})
+        out.append({"kind": "individual", "n": n, "n_layers": 3, "randomize": False, "seed": rng.randrange(2**31), "model": model})
+        ind = {"n": n, "layers": [prev], "values": [0.5] * (3 * n_param_gates(prev))}
+        out.append({"kind": "append", "ind": ind, "n_layers": 2, "randomize": False, "seed": rng.randrange(2**31), "model": model})
+    return out
+
+
 def gen_layer_case(rng, max_n=12):
     n = rng.choice([1, 1, 2, 2, 2, 3, 3, 3, 4, 4, 5, 6, 7, 8, 10, max_n])
     r = rng.random()
@@ -597,7 +698,7 @@ def run(ctx):
     translate.check_link(ctx, "C20")  # regenerate Gallina from /repo's current source; link lemmas coq/link/C20Link.v
     ctx.rule = ("random_layer: n from 1..12 (weight on 1-3) x previous layer none / all identities / all rotations / random valid, seeds random; every (n<=2, previous layer) x 4 seeds; "
                 "random_individual n 1..12 x 1..6 layers; add_random_layers on random valid individuals x 1..4 appended layers; random_population 0..5 individuals; argument edge cases; "
-                "exhaustive decision paths of random_layer through a scripted generator (quick n<=3 with <=2 rejected draws per path, thorough n<=4 with <=3); groups of previous layers with equal gate-type pattern and different wiring (n=4, thorough also 5) x equal seeds on every member consecutively in one process, via random_layer and via add_random_layers; every previous-layer / parent object reused for many seeds (n=2..4, all previous layers with a controlled rotation); the same with objects built in ANOTHER python process (different PYTHONHASHSEED) and transferred by pickle / cloudpickle, which must equal and hash like their local twins; every seeded call is run twice with other calls of the same seed in between and must give the same object and the same RNG call sequence; distinct = distinct (arguments, seed or script); non-trivial = at least one random decision drawn")
+                "exhaustive decision paths of random_layer through a scripted generator (quick n<=3 with <=2 rejected draws per path, thorough n<=4 with <=3); groups of previous layers with equal gate-type pattern and different wiring (n=4, thorough also 5) x equal seeds on every member consecutively in one process, via random_layer and via add_random_layers; wide registers (n = 65, 100, 130, 200, 300, 400: random_layer after a random previous layer, random_individual with 3 layers, add_random_layers of 2 layers); previous layers holding instances of user SUBCLASSES of the gate classes (controlled rotations only / control gates only / rotations+identities), repeats judged by (qubits, isinstance kind); every previous-layer / parent object reused for many seeds (n=2..4, all previous layers with a controlled rotation); the same with objects built in ANOTHER python process (different PYTHONHASHSEED) and transferred by pickle / cloudpickle, which must equal and hash like their local twins; every seeded call is run twice with other calls of the same seed in between and must give the same object and the same RNG call sequence; distinct = distinct (arguments, seed or script); non-trivial = at least one random decision drawn")
     if not rnglog.selftest():
         ctx.violation("correspondence", "rnglog-selftest", "the logging Random does not reproduce random.Random on this interpreter (vlib/rnglog.py)")
     cases = []
@@ -605,7 +706,7 @@ def run(ctx):
     for f in sorted(cdir.glob("*.json")) if cdir.exists() else []:
         cases.append(json.loads(f.read_text()))
     cases += edge_cases()
-    for _ in range(ctx.n(1200, 12000)):
+    for _ in range(ctx.n(900, 12000)):
         cases.append(gen_layer_case(ctx.rng))
     for _ in range(ctx.n(300, 3000)):
         cases.append(gen_individual_case(ctx.rng))
@@ -613,7 +714,7 @@ def run(ctx):
         cases.append(gen_append_case(ctx.rng))
     for _ in range(ctx.n(40, 1000)):
         cases.append(gen_population_case(ctx.rng))
-    for _ in range(ctx.n(400, 6000)):
+    for _ in range(ctx.n(300, 6000)):
         cases.append(gen_make_layer_case(ctx.rng))
     for _ in range(ctx.n(150, 2000)):
         cases.append(gen_make_individual_case(ctx.rng))
@@ -622,6 +723,14 @@ def run(ctx):
         cases += group_cases(ctx.rng, n, ctx.n(12, 25) if n == 4 else 6)
     for n in (2, 3, 4):
         cases += reuse_cases(ctx.rng, n, ctx.n(8, 30))
+    known_keys = {k["key"] for k in core.load_findings() if k["property"] == "C20"}
+    for n in (2, 3, 4):
+        cases += subclass_cases(ctx.rng, n, ctx.n(6, 20))
+        if "random_layer-repeat-subclassed-pair" in known_keys:  # a finding on HEAD (see module report); run only once it is listed
+            cases += subclass_cases(ctx.rng, n, ctx.n(6, 20), both=True)
+    for n in (65, 100, 130, 200, 300, 400):
+        cases += wide_cases(ctx.rng, n, ctx.n(10, 40) if n >= 200 else ctx.n(5, 30))
+    ctx.notes["wide_registers"] = "n = 65..400: validity / parameter count / no-repeat on the implementation for every case; model comparison (decision stream) for n <= 130, oracle-only above (size of the case literals)"
     xp = []
     for n in (2, 3, 4):
         for pickler in ("pickle", "cloudpickle"):
